@@ -18,7 +18,16 @@ class Boom(BaseException):
     """A BaseException subclass that is not an Exception (like KeyboardInterrupt/SystemExit)."""
 
 
-EXC_TYPES = [ValueError, KeyError, Boom, KeyboardInterrupt, SystemExit]
+class Unprintable(Exception):
+    """`str()` and `repr()` of it raise"""
+
+    def __str__(self):
+        raise RuntimeError("this exception cannot be printed")
+
+    __repr__ = __str__
+
+
+EXC_TYPES = [ValueError, KeyError, Boom, KeyboardInterrupt, SystemExit, Unprintable]
 
 
 def gen_graph(rng, n, p_edge=0.35, p_par=0.15):
